@@ -1,5 +1,6 @@
 import D2V.Model.SemCore
 import D2V.Model.SemGraph
+import D2V.Proofs.SemEdges
 /-!
   C11 — Parallel connections are indexed consecutively; indexed references hit one.
 
@@ -113,30 +114,6 @@ namespace D2V.Sem
 open D2V.Gen.SemKw
 open D2V.SemG (fold)
 
-/-- case-folded key of a path -/
-def pathKey (p : List Name) : List (List Char) := p.map fun n => fold n.s
-
-theorem pathFoldEq_iff (a b : List Name) : pathFoldEq a b = true ↔ pathKey a = pathKey b := by
-  induction a generalizing b with
-  | nil => cases b <;> simp [pathFoldEq, pathKey]
-  | cons x r ih =>
-    cases b with
-    | nil => simp [pathFoldEq, pathKey]
-    | cons y r' =>
-      simp only [pathFoldEq, Bool.and_eq_true, ih, pathKey, List.map_cons, List.cons.injEq, eqFold, beq_iff_eq]
-
-/-- the class of a stored edge: endpoints (case-insensitively) and arrow flags -/
-def ENode.cls (e : ENode) : List (List Char) × List (List Char) × Bool × Bool := (pathKey e.src, pathKey e.dst, e.sa, e.da)
-def EID.cls (e : EID) : List (List Char) × List (List Char) × Bool × Bool := (pathKey e.src, pathKey e.dst, e.sa, e.da)
-
-theorem matchesEID_iff (e : ENode) (eid : EID) :
-    e.matchesEID eid = true ↔ (∀ i, eid.idx = some i → e.idx = i) ∧ e.cls = eid.cls := by
-  unfold ENode.matchesEID ENode.cls EID.cls
-  cases h : eid.idx <;> simp [pathFoldEq_iff, and_assoc, and_left_comm, and_comm]
-
-/-- the indices of the edges of one class are pairwise distinct -/
-def IndicesDistinct (es : List ENode) : Prop := es.Pairwise fun a b => a.cls = b.cls → a.idx ≠ b.idx
-
 /-- C11, IR side: when the indices of each class are distinct, a reference with an index selects at most one edge -/
 theorem indexed_ref_hits_one (es : List ENode) (h : IndicesDistinct es) (eid : EID) (i : Nat) (hi : eid.idx = some i) :
     (es.filter fun e => e.matchesEID eid).length ≤ 1 := by
@@ -170,30 +147,36 @@ theorem getEdgesNil_hits_one (ir : IR) (h : ∀ m, IndicesDistinct (ir.edgesOf m
         · simp
       · simp
 
+/-- C11, IR side, for the rule `index := largest existing index + 1` (the prepared fix): in the IR of EVERY program — nested
+    scopes, chains, underscores, deletions, re-creations — a reference with an index selects at most one edge -/
+theorem indexed_ref_hits_one_maxPlus1 (prog : List Decl) (m : Owner) (eid : EID) (i : Nat) (hi : eid.idx = some i) :
+    ((evalWith .maxPlus1 prog).getEdgesNil m eid).length ≤ 1 :=
+  getEdgesNil_hits_one _ (fun m' => by rw [edgesOf_eq]; exact maxPlus1_inv prog m') m eid i hi
+
+/-- … and for the rule of the unchanged tree (`index := number of existing equal edges`) in the IR of every program that
+    assigns no null anywhere (the excluded region is exactly where the counterexample below lives) -/
+theorem indexed_ref_hits_one_partial (prog : List Decl) (hnonull : (flattenList prog).any itemNull = false)
+    (m : Owner) (eid : EID) (i : Nat) (hi : eid.idx = some i) :
+    ((evalWith .count prog).getEdgesNil m eid).length ≤ 1 :=
+  getEdgesNil_hits_one _ (fun m' => by rw [edgesOf_eq]; exact count_inv_partial prog hnonull m') m eid i hi
+
+/-- the stated goal, over the index rule read off the source on this run -/
+def C11_full_statement : Prop :=
+  ∀ (prog : List Decl) (m : Owner) (eid : EID) (i : Nat), eid.idx = some i → ((eval prog).getEdgesNil m eid).length ≤ 1
+
+/-- the goal holds as soon as `createEdge2` uses the rule `largest + 1` -/
+theorem C11_full_of_maxPlus1 (h : idxRule = .maxPlus1) : C11_full_statement := by
+  intro prog m eid i hi
+  unfold eval
+  rw [h]
+  exact indexed_ref_hits_one_maxPlus1 prog m eid i hi
+
 /-- the hypothesis is satisfiable and the bound is attained -/
 example : IndicesDistinct [({ id := 1, owner := .root, src := [], dst := [], sa := false, da := true, idx := 0 } : ENode),
                            { id := 2, owner := .root, src := [], dst := [], sa := false, da := true, idx := 1 }] := by
   simp [IndicesDistinct]
 
 /-! #### the index rules of `createEdge2` -/
-
-/-- with `index := 1 + largest existing index` the new index differs from every existing index of the class … -/
-theorem newIndex_maxPlus1_fresh (es : List ENode) : ∀ e ∈ es, e.idx < newIndex .maxPlus1 es := by
-  unfold newIndex
-  simp only
-  suffices h : ∀ (acc : Nat) (l : List ENode), acc ≤ l.foldl (fun acc e => max acc (e.idx + 1)) acc ∧
-      ∀ e ∈ l, e.idx < l.foldl (fun acc e => max acc (e.idx + 1)) acc from (h 0 es).2
-  intro acc l
-  induction l generalizing acc with
-  | nil => simp
-  | cons x r ih =>
-    simp only [List.foldl_cons, List.mem_cons]
-    have h1 := ih (max acc (x.idx + 1))
-    refine ⟨by have := h1.1; omega, ?_⟩
-    intro e he
-    rcases he with rfl | he
-    · have := h1.1; omega
-    · exact h1.2 e he
 
 /-- … whereas with `index := len(ea)` it need not: an edge with index 1 and nothing else gives index 1 again -/
 theorem newIndex_count_collides :
@@ -230,6 +213,18 @@ theorem C11_cx_index_after_delete :
       (fun a b => a.1 = b.1 → a.2 ≠ b.2) := List.pairwise_map.mpr h
   rw [hk] at hm
   simp at hm
+
+/-- … so the goal is false while `createEdge2` uses `index := len(ea)` -/
+theorem C11_full_false_of_count (h : idxRule = .count) : ¬ C11_full_statement := by
+  intro hall
+  have := hall cxProgram .root { src := [cxName "a" 0], dst := [cxName "b" 0], sa := false, da := true, idx := some 1 } 1 rfl
+  unfold eval at this
+  rw [h] at this
+  have hlen : ((evalWith .count cxProgram).getEdgesNil .root
+      { src := [cxName "a" 0], dst := [cxName "b" 0], sa := false, da := true, idx := some 1 }).length = 2 := by decide +kernel
+  omega
+
+example : (flattenList (cxProgram.take 2)).any itemNull = false := by decide
 
 /-- under the rule `index := largest + 1` the same program changes exactly one edge -/
 theorem C11_witness_under_maxPlus1 : labelledX (evalWith .maxPlus1 cxProgram) = [(6, 1)] := by decide +kernel
